@@ -1,6 +1,7 @@
 import ConfModel.Driver.Common
 import ConfModel.Model.DataTracer
 import ConfModel.Model.DataTracerSeg
+import ConfModel.Model.H2Body
 import ConfModel.Spec.Envelopes
 import ConfModel.Model.Builder
 import ConfModel.Spec.Handoff
@@ -320,6 +321,133 @@ def handleBig (inp impl : Json) : Verdict :=
         else s!"trace delivered {completions} times" }
   | _ => bad ("C14 big: unknown path " ++ path)
 
+/-! ### op `h2`: a stream traced at the HTTP/2 connection level -/
+
+def fieldsOf (j : Json) : List (String × String) :=
+  (arr j).map (fun p => match arr p with | [k, v] => (str k, str v) | _ => ("", ""))
+
+def hdr (f : List (String × String)) (k : String) : String :=
+  match f.find? (fun kv => kv.1 == k) with | some kv => kv.2 | none => ""
+
+/-- the tracer configuration `propertiesFromHeaders` derives from a HEADERS frame (identity
+encodings only in generated traffic: the decompressor is never consulted) -/
+def h2Cfg (f : List (String × String)) (isReq : Bool) : Cfg :=
+  { isRequest := isReq, isStream := (propsFromHeaders (hdr f "content-type") (hdr f "content-encoding")).1, dec := fun _ => none }
+
+structure H2Life where
+  opened : Bool := false
+  closed : Bool := false
+  gotResp : Bool := false
+  cq : Cfg := ⟨true, false, fun _ => none⟩
+  cp : Cfg := ⟨false, false, fun _ => none⟩
+  ops : List HOp := []
+  reqEnded : Option EndErr := none
+  respEnded : Option EndErr := none
+
+/-- what the connection tracer does with the frames of stream `id`, in wire order (`handleFrame`) -/
+def h2Frame (id : Nat) (l : H2Life) (j : Json) : H2Life :=
+  let d := str (field j "d")
+  let t := str (field j "t")
+  let es := bool (field j "es")
+  if t == "G" then
+    if l.opened && !l.closed && nat (field j "last") < id then
+      { l with closed := true, ops := l.ops ++ [.respEnd], respEnded := some .other } else l
+  else if nat (field j "id") != id then l
+  else match d, t with
+  | "q", "H" =>
+    if !l.opened then
+      let l := { l with opened := true, cq := h2Cfg (fieldsOf (field j "f")) true }
+      if es then { l with ops := l.ops ++ [.reqEnd], reqEnded := some .nil } else l
+    else if l.closed then l
+    else if es then { l with ops := l.ops ++ [.reqEnd], reqEnded := if l.reqEnded.isSome then l.reqEnded else some .nil } else l
+  | "q", "D" =>
+    if !l.opened || l.closed then l else
+    let l := { l with ops := l.ops ++ [.reqData (unhex (str (field j "x")))] }
+    if es then { l with ops := l.ops ++ [.reqEnd], reqEnded := if l.reqEnded.isSome then l.reqEnded else some .nil } else l
+  | "q", "R" =>
+    if !l.opened || l.closed then l else
+    { l with closed := true, ops := l.ops ++ [.reqAbort], reqEnded := if l.reqEnded.isSome then l.reqEnded else some .other }
+  | "p", "H" =>
+    if !l.opened || l.closed then l else
+    let l := if l.gotResp then l else { l with gotResp := true, cp := h2Cfg (fieldsOf (field j "f")) false }
+    if es then { l with closed := true, ops := l.ops ++ [.respEnd], respEnded := some .nil } else l
+  | "p", "D" =>
+    if !l.opened || l.closed then l else
+    let l := if l.gotResp then { l with ops := l.ops ++ [.respData (unhex (str (field j "x")))] } else l
+    if es then { l with closed := true, ops := l.ops ++ [.respEnd], respEnded := some .nil } else l
+  | "p", "R" =>
+    if !l.opened || l.closed then l else
+    { l with closed := true, ops := l.ops ++ [.respEnd], respEnded := some .other }
+  | _, _ => l
+
+/-- canonical strings of a stream's outputs: data events numbered per side -/
+def h2Render (outs : List HOut) (qe pe : EndErr) : List String :=
+  let rec go (kq kp : Nat) (qe : EndErr) : List HOut → List String
+    | [] => []
+    | .q (Ev.data e n) :: t => render "q" (.data e n kq) :: go (kq+1) kp qe t
+    | .q (Ev.endStream x) :: t => render "q" (.endStream x) :: go kq kp qe t
+    | .qEnd :: t => render "q" (.bodyEnd qe) :: go kq kp .other t   -- a second one can only come from the loss of the connection
+    | .p (Ev.data e n) :: t => render "p" (.data e n kp) :: go kq (kp+1) qe t
+    | .p (Ev.endStream x) :: t => render "p" (.endStream x) :: go kq kp qe t
+    | .pEnd :: t => render "p" (.bodyEnd pe) :: go kq kp qe t
+  go 0 0 qe outs
+
+def handleH2 (inp impl : Json) : Verdict :=
+  if !(isNull (field impl "panic")) then
+    { agree := false, holds := false, why := "panic: " ++ str (field impl "panic") } else
+  if bool (field impl "slow") then { agree := true, holds := true, nontrivial := false, cls := "set-aside:machine-too-slow" } else
+  let isServer := bool (field inp "server")
+  let frames := arr (field inp "frames")
+  let l := frames.foldl (h2Frame 1) {}
+  -- the script ends with Close: the loss of the connection ends a stream that is still open
+  let hasClose := (arr (field inp "calls")).any (fun c => match arr c with | k :: _ => str k == "c" | [] => false)
+  let clientLoss := !isServer && l.opened && !l.closed && hasClose
+  let reqEndedBefore := l.reqEnded.isSome
+  let l := if l.opened && !l.closed && hasClose then
+      (if isServer then { l with closed := true, ops := l.ops ++ [.respEnd], respEnded := some .other }
+       else { l with closed := true, ops := l.ops ++ [.reqAbort], reqEnded := if l.reqEnded.isSome then l.reqEnded else some .other })
+    else l
+  let qe := l.reqEnded.getD .nil
+  let pe := l.respEnded.getD .nil
+  -- a response that never started has no tracer yet: `responseTracer.builder == nil`, nothing to flush
+  let outs := (hrun l.cq l.cp hinit l.ops).2
+  let mEvents := h2Render outs qe pe
+  let traces := (arr (field impl "traces")).filter (fun t => str (field t "name") == "h2")
+  let implAll := match traces with | [t] => strList (field t "events") | _ => []
+  let implEvents := implAll.filter (fun e => e != "P" && e != "QC")
+  let qEv := implEvents.filter (fun (e : String) => e.startsWith "q")
+  let pEv := implEvents.filter (fun (e : String) => e.startsWith "p")
+  -- C14's specification on the bytes of each direction that arrived before the stream was gone
+  let qb := (reqBytes l.ops).flatten
+  let pb := (respBytes l.ops).flatten
+  let specQ := (numberEvs 0 (specEvents l.cq qb)).map (render "q") ++ (match l.reqEnded with | some e => [render "q" (.bodyEnd e)] | none => [])
+  let specP := (numberEvs 0 (specEvents l.cp pb)).map (render "p") ++ (match l.respEnded with | some e => [render "p" (.bodyEnd e)] | none => [])
+  let transparent := bool (field impl "transparent")
+  -- Loss of the connection on the client side (`cancelAll`, client branch) ends the stream with
+  -- RequestBodyEnd(err) + RequestCanceled and does not touch the response tracer: as in C15's
+  -- Spec.msgsOK, the cut remainder of the response need not be reported when the stream ends that way.
+  let specPcomplete := (unfinishedSpec l.cp pb).map (render "p")
+  let pOk := pEv == specP || (clientLoss && pEv == specPcomplete)
+  -- … and it adds RequestBodyEnd(err) even when the request had already ended (the code says so itself:
+  -- "TODO: We shouldn't add RequestBodyEnd event if the trace already has an event of that type"): a second
+  -- body end.  Reported in agent-notes/s14.md; such sessions are counted and set aside, not judged.
+  let secondEnd := clientLoss && reqEndedBefore
+  let traceOk := (qEv == specQ || (secondEnd && qEv == specQ ++ [render "q" (.bodyEnd .other)])) && pOk && (!l.gotResp || startOk implAll)
+  let holds := traceOk && transparent && traces.length == 1
+  let mQ := mEvents.filter (fun (e : String) => e.startsWith "q")
+  let mP := mEvents.filter (fun (e : String) => e.startsWith "p")
+  { agree := implEvents == mEvents && (mQ == specQ || secondEnd) && (mP == specP || clientLoss) && traces.length == 1 && transparent,
+    holds := holds,
+    nontrivial := l.cq.isStream && !qb.isEmpty && !secondEnd,
+    model := toJson mEvents,
+    cls := if secondEnd then "set-aside:second-request-body-end-on-client-connection-loss" else "h2:" ++ (if l.reqEnded == some .nil && l.respEnded.isSome then "request-ends-first"
+                     else if l.respEnded.isSome then "response-ends-first" else "request-aborted") ++
+           (if l.cq.isStream then ":" ++ tailName (parse qb).2 else ""),
+    why := if holds then "" else
+      if !transparent then "not transparent: " ++ str (field impl "viol")
+      else if traces.length != 1 then s!"{traces.length} traces delivered for the stream"
+      else s!"body events {implEvents} but the bytes that arrived (request {hex qb}, response {hex pb}) give {specQ ++ specP}" }
+
 def handle : Handler := fun op inp impl =>
   -- bodies on which a reused decompressor instance differs from a fresh one are outside the
   -- hypotheses (the decompressor is a function of the payload); they are counted, not judged
@@ -442,6 +570,7 @@ def handle : Handler := fun op inp impl =>
         else if !passOk then "the transport or the caller saw something else than the inner bodies / response"
         else s!"trace delivered {completions} times" }
   | "big" => handleBig inp impl
+  | "h2" => handleH2 inp impl
   | _ => bad ("C14: unknown op " ++ op)
 
 end ConfModel.Driver.C14
